@@ -88,6 +88,14 @@ pub(super) fn send_to(
         src_bind.local_addr
     };
 
+    // A loopback source address is only meaningful on this host. On
+    // another host it would name *that* host's loopback, so a socket
+    // there connected to its own 127.0.0.1:p would take the datagram
+    // for its peer's. Linux refuses the send with EINVAL.
+    if src_ip.is_loopback() && !k.is_local(dst_sa.ip()) {
+        return Poll::Ready(Err(Error::from(ErrorKind::InvalidInput)));
+    }
+
     k.outbound.push_back(Packet {
         src: src_ip,
         dst: dst_sa.ip(),
